@@ -299,8 +299,8 @@ def events_not_dropped(chk, prog):
               prog.fn_path("rustzx_core", "ZXController::<H>::frames_count"),
               prog.fn_path("rustzx_core", "ZXController::<H>::reset_frame_counter")} | set(CPU)
     for p in prog.fns:
-        if "EmulationStopwatch" in p:
-            opaque.add(p)
+        if "EmulationStopwatch" in p or "core::time::" in p:
+            opaque.add(p)      # host time: its comparison with the limit is an opaque effect here (see T-NONINT)
     w.opaque_paths |= opaque
 
     def hook(w_, st, path, a, d, wh):
